@@ -34,6 +34,10 @@ pub struct S3Scenario {
     /// NUL, 0xff, ...: the runtime must hand payload bytes through untouched)
     #[serde(default)]
     pub tail: Vec<u8>,
+    /// (actor, n): that actor's n-th message / timeout / random handler call panics (fault: a
+    /// handler panic ends that actor; it must not be restarted behind the scenes)
+    #[serde(default)]
+    pub handler_panic: Option<(u8, u32)>,
     pub sched: SchedSpec,
 }
 
@@ -70,6 +74,8 @@ pub struct S3Actor {
     pub big_tag: Option<u8>,
     pub blob_len: u32,
     pub tail: Arc<Vec<u8>>,
+    pub panic_at: Option<u32>,
+    pub calls: Arc<std::sync::atomic::AtomicU32>,
 }
 
 fn id_u64(i: Id) -> u64 {
@@ -133,6 +139,12 @@ impl S3Actor {
             }
         }
     }
+    fn maybe_panic(&self) {
+        let k = self.calls.fetch_add(1, std::sync::atomic::Ordering::SeqCst) + 1;
+        if self.panic_at == Some(k) {
+            panic!("injected handler panic");
+        }
+    }
     fn ev(&self, kind: HKind, before: Option<&S>) -> HEvent {
         HEvent { actor: self.idx, kind, before: before.map(|s| format!("{:?}", s)), after: String::new(), t_enter: self.sched.clock_ns(), t_exit: 0, cmds: vec![], sends: vec![], timer_cmds: vec![], unserializable: 0 }
     }
@@ -156,6 +168,7 @@ impl Actor for S3Actor {
         s
     }
     fn on_msg(&self, id: Id, state: &mut Cow<S>, src: Id, msg: Big, o: &mut Out<Self>) {
+        self.maybe_panic();
         let blob_len = msg.blob.len();
         let d = ser(&msg).map(|b| dig(&b)).unwrap_or((0, usize::MAX));
         let msg = msg.m;
@@ -168,6 +181,7 @@ impl Actor for S3Actor {
         self.done(ev, state);
     }
     fn on_timeout(&self, id: Id, state: &mut Cow<S>, timer: &u8, o: &mut Out<Self>) {
+        self.maybe_panic();
         let mut ev = self.ev(HKind::Timeout(*timer), Some(state));
         let e = self.table.eval_timer(id, state, *timer);
         if let Some(n) = e.new_state {
@@ -177,6 +191,7 @@ impl Actor for S3Actor {
         self.done(ev, state);
     }
     fn on_random(&self, id: Id, state: &mut Cow<S>, random: &u8, o: &mut Out<Self>) {
+        self.maybe_panic();
         let mut ev = self.ev(HKind::Random(*random), Some(state));
         let e = self.table.eval_random(id, state, *random);
         if let Some(n) = e.new_state {
@@ -329,7 +344,8 @@ pub fn gen_s3(seed: u64) -> S3Scenario {
         2 => (0..rng.range(1, 3)).map(|_| *rng.pick(&[b'\n', b'\r', 0u8, b' ', 0xff, b'}', b'a', b'\t'])).collect(),
         _ => vec![],
     };
-    S3Scenario { tables, addrs, timer_ranges, injections, horizon_ms, big_tag, blob_len, tail, sched }
+    let handler_panic = if rng.chance(1, 8) { Some((rng.below(n as u64) as u8, rng.range(1, 4) as u32)) } else { None };
+    S3Scenario { tables, addrs, timer_ranges, injections, horizon_ms, big_tag, blob_len, tail, handler_panic, sched }
 }
 
 pub struct S3Obs {
@@ -350,7 +366,7 @@ pub fn run_s3(sc: &S3Scenario) -> S3Obs {
         .tables
         .iter()
         .enumerate()
-        .map(|(i, t)| (ids[i], S3Actor { idx: i, table: Arc::new(t.clone()), ids: ids.clone(), ranges: ranges.clone(), log: log.clone(), sched: sched.clone(), big_tag: sc.big_tag, blob_len: sc.blob_len, tail: Arc::new(sc.tail.clone()) }))
+        .map(|(i, t)| (ids[i], S3Actor { idx: i, table: Arc::new(t.clone()), ids: ids.clone(), ranges: ranges.clone(), log: log.clone(), sched: sched.clone(), big_tag: sc.big_tag, blob_len: sc.blob_len, tail: Arc::new(sc.tail.clone()), panic_at: sc.handler_panic.filter(|(a, _)| *a as usize == i).map(|(_, k)| k), calls: Arc::new(std::sync::atomic::AtomicU32::new(0)) }))
         .collect();
     let res = std::panic::catch_unwind(std::panic::AssertUnwindSafe(|| {
         // the runtime blocks forever: run it on its own simulation thread
@@ -408,7 +424,18 @@ pub fn judge(sc: &S3Scenario, obs: &S3Obs) -> (Vec<Violation>, Counters) {
         if !evs.is_empty() && (evs[0].kind != HKind::Start || starts != 1) {
             v.push(Violation::new("C17", "start", format!("actor {}: on_start ran {} times; first event is {:?}", a, starts, evs[0].kind)));
         }
-        let Some(&sock) = sock_of.get(&my_addr[a]) else { continue };
+        // the actor listens on exactly the address its id encodes (a wildcard or otherwise different
+        // bind would hand it datagrams that were sent to somebody else's address)
+        let sock = match sock_of.get(&my_addr[a]) {
+            Some(s) => *s,
+            None => {
+                let bound: Vec<String> = obs.udp.iter().filter_map(|e| if let UdpEvent::Bind { addr, .. } = e { Some(addr.clone()) } else { None }).collect();
+                if !evs.is_empty() {
+                    v.push(Violation::new("C17", "bind-address", format!("actor {} (id address {:x}) runs handlers but no socket is bound to its address; bound: {:?}", a, my_addr[a], bound)));
+                }
+                continue;
+            }
+        };
         // datagrams handed to recv_from on this socket: (from, digest, t, matched, decodable)
         let mut recvd: Vec<(u64, Dig, u64, bool, bool)> = obs
             .udp
